@@ -190,3 +190,89 @@ def history_witness(prog, done, seed):
 
 def reduced_witness(done, seed):
     return None
+
+
+def regimen_witness(seed):
+    chi = real_chi()
+    from contracts import mech
+    f = [x for x in mech.library_files() if x.endswith('pk_one_comp.xml')][0]
+    for kw, want in [(dict(dose=2.0, start=1.5, duration=0.25, period=3.0, num=4), (8.0, 1.5, 0.25, 3.0, 4)),
+                     (dict(dose=2.0, start=1.5, duration=0.25, period=3.0), (8.0, 1.5, 0.25, 3.0, 0)),
+                     (dict(dose=2.0, start=1.5, duration=0.25), (8.0, 1.5, 0.25, 0, 0)),
+                     (dict(dose=2.0, start=1.5, duration=0.25, num=3), (8.0, 1.5, 0.25, 0, 0))]:
+        m = chi.PKPDModel(f)
+        m.set_administration('central')
+        m.set_dosing_regimen(**kw)
+        ev = [(e.level(), e.start(), e.duration(), e.period(), e.multiplier()) for e in m.dosing_regimen().events()]
+        if ev != [want]:
+            return {'what': 'set_dosing_regimen(%s) installs the events %s, expected %s' % (kw, ev, [want]), 'expected': [want], 'observed': ev}
+    return None
+
+
+def table_witness(model, final_is_none, seed):
+    """real chi.PredictiveModel over a dosing-capable toy mechanistic model: table vs. the events the pacing system applies"""
+    import chi
+    import itertools
+
+    class Toy(chi.MechanisticModel):
+        def __init__(self):
+            super(Toy, self).__init__()
+            self._reg = None
+
+        def dosing_regimen(self):
+            return self._reg
+
+        def n_outputs(self):
+            return 1
+
+        def n_parameters(self):
+            return 1
+
+        def outputs(self):
+            return ['y']
+
+        def parameters(self):
+            return ['a']
+
+        def has_sensitivities(self):
+            return False
+
+        def enable_sensitivities(self, *a, **k):
+            pass
+
+        def simulate(self, parameters, times):
+            return np.ones((1, len(times))) * parameters[0]
+    cands = []
+    if model:
+        def g(name, default):
+            for k_, v_ in model.items():
+                if str(k_) == name:
+                    return float(v_)
+            return default
+        cands.append((g('start', 0.0), g('period', 2.0), int(g('mult', 0)), None if final_is_none else g('T', 4.0)))
+    for start, period, mult, T in itertools.product((0.0, 0.5, 3.0), (0.0, 1.0, 2.0), (0, 1, 3), (None,) if final_is_none else (0.0, 1.0, 4.0, 4.5, 7.0)):
+        cands.append((start, period, mult, T))
+    for start, period, mult, T in cands:
+        toy = Toy()
+        toy._reg = myokit.pacing.blocktrain(period=period, duration=0.25, offset=start, level=4.0, limit=mult if period > 0 else 0)
+        pm = chi.PredictiveModel(toy, chi.GaussianErrorModel())
+        df = pm.get_dosing_regimen(final_time=T)
+        got = [] if df is None else sorted((float(a_), float(b_), float(c_)) for a_, b_, c_ in zip(df['Time'], df['Duration'], df['Dose']))
+        # events the pacing system applies
+        want = []
+        if period == 0:
+            if T is None or start <= T:
+                want.append((start, 0.25, 1.0))
+        else:
+            kmax = mult if mult > 0 else (1 if T is None else 10 ** 6)
+            k_ = 0
+            while k_ < kmax and (T is None or start + k_ * period <= T):
+                want.append((start + k_ * period, 0.25, 1.0))
+                k_ += 1
+                if T is None and mult == 0:
+                    break
+        if got != want:
+            return {'what': 'regimen (start %s, period %s, %s doses) up to final time %s: the table lists the times %s, the simulation applies doses at %s' % (
+                start, period, mult or 'indefinitely many', T, [g_[0] for g_ in got], [w_[0] for w_ in want]),
+                'start': start, 'period': period, 'multiplier': mult, 'final_time': T, 'expected': want, 'observed': got}
+    return None
